@@ -52,7 +52,11 @@ def reuse_stage(tier_, key):
             for ms in [[m] for m in corpus.MUTS[:6]] + [["memoindex", "offbyone"], ["character", "stringlen"]]:
                 cfgs.append(corpus.cfg(P, 40, 120, muts=ms, rate=1.0)); maxlens.append(3)
                 cfgs.append(corpus.cfg(P, 40, 120, muts=ms, rate=0.6)); maxlens.append(3)
-        spec = {"cfgs": cfgs, "maxlens": maxlens, "seed": rng.getrandbits(40), "x": [rng.randrange(256) for _ in range(rng.randrange(1, 200))],
+        # one long session per protocol (thousands of calls on one generator, small programs)
+        long_calls = [0] * len(cfgs)
+        for P in range(6):
+            cfgs.append(corpus.cfg(P, 3, 12)); maxlens.append(1); long_calls.append(2600 if tier_ == "quick" else 70000)
+        spec = {"cfgs": cfgs, "maxlens": maxlens, "long_calls": long_calls, "seed": rng.getrandbits(40), "x": [rng.randrange(256) for _ in range(rng.randrange(1, 200))],
                 "y": [rng.randrange(256) for _ in range(rng.randrange(200, 900))], "maxlen": 4 if tier_ == "quick" else 5}
         spec["x"][0] |= 1; spec["y"][0] &= 0xFE        # first draw (frame coin for protocols 4/5) differs between x and y
         sf = os.path.join(d, "reuse_spec.json"); json.dump(spec, open(sf, "w"))
@@ -117,6 +121,18 @@ def determinism_stage(tier_, key):
                 J.bytes_job(corpus.cfg(P, 20, 80), blen=J.rng.choice([0, 1, 2, 3, 5, 8, 13, 21, 34, 55, 89, 144, 200]))
             for kind in ("empty", "zero", "ff"):
                 J.bytes_job(corpus.cfg(P, 20, 80, muts=corpus.MUTS, rate=0.5), kind=kind, blen=16)
+            # hash-based containers with several keys of different kinds, then free choices: anything that looks at
+            # "the first key" or iterates such a container while deciding what to emit depends on the hasher
+            if P >= 1:
+                S, I, F, T = (0x58 if P >= 1 else 0x56), 0x4b, 0x47, 0x29
+                dict4 = [0x63, 0x29, 0x7d, S, 0x4e, 0x73, I, 0x4e, 0x73, T, 0x4e, 0x73, F, 0x4e, 0x73]
+                shapes = [dict4, [0x7d, I, S, 0x73, S, I, 0x73, T, T, 0x73] + [0x32]]
+                if P >= 4:
+                    shapes.append([0x8f, 0x28, S, I, T, F, 0x4e, 0x90])
+                    shapes.append([0x63, 0x29, 0x28, S, I, T, F, 0x91, 0x32])
+                for sh in shapes:
+                    for _ in range(6 if q else 40):
+                        J.seed_job(corpus.cfg(P, len(sh) + 40, len(sh) + 60), force=[[i, b] for i, b in enumerate(sh)])
             # a mutator registered more than once; the buffer-size option
             for ms in corpus.DUP_LISTS:
                 J.seed_job(corpus.cfg(P, 60, 160, muts=ms, rate=0.5))
@@ -248,29 +264,54 @@ def vocab_stage(tier_, key):
             spec2 = dict(spec, first_seed=1000000 + (seed() % 1000000) * 10, n=1000)
             json.dump(spec2, open(sf, "w")); run([PFV, "opscan", sf, of], timeout=7200)
             extra = [json.loads(l) for l in open(of) if l.strip()]
+        # opt-in opcodes: "counted only when enabled" - so they must occur when they ARE enabled.  Each process
+        # scans the flag settings one after the other (EXT only, buffers only, both), in two different orders.
+        n_opt = 1500 if q else 8000
+        optscans = []
+        for order in ([[True, False], [False, True], [True, True]], [[False, True], [True, False]]):
+            spec3 = {"protocols": [2, 3, 4, 5], "first_seed": 0, "n": n_opt, "threads": CORES - 2, "variants": order}
+            json.dump(spec3, open(sf, "w")); run([PFV, "opscan", sf, of], timeout=7200)
+            optscans.append([json.loads(l) for l in open(of) if l.strip()])
         jobs, claims = [], {}
-        for sc in scans + extra:
-            P = sc["P"]
+        def take(sc):
+            P, ext, buf = sc["P"], bool(sc.get("ext", 0)), bool(sc.get("buf", 0))
             for op, s in sc["first"]:
                 s = int(s)
-                k = (P, s)
+                k = (P, s, ext, buf)
                 if k not in claims:
                     claims[k] = []
-                    jobs.append({"id": len(jobs) + 1, "cfg": corpus.cfg(P), "mode": "seed", "seed": s})
+                    jobs.append({"id": len(jobs) + 1, "cfg": corpus.cfg(P, ext=ext, buf=buf), "mode": "seed", "seed": s})
                 if op not in claims[k]: claims[k].append(op)
-        jf = os.path.join(d, "vocab_jobs.json"); json.dump(jobs, open(jf, "w"))
+        for sc in scans + extra: take(sc)
+        jf = os.path.join(d, "vocab_jobs.json")
         lf = os.path.join(d, "vocab_lib.ndjson")
-        run([PFV, "libgen", jf, lf], timeout=3600)
-        lib = {}
-        for l in open(lf):
-            if l.strip():
-                r = json.loads(l); lib[r["id"]] = r
-        recs = []
-        for j in jobs:
-            P, s = j["cfg"]["P"], j["seed"]
-            recs.append({"t": "vocab", "P": P, "seed": str(s), "bytes": list(bytes.fromhex(lib[j["id"]]["hex"])), "claims": claims[(P, s)]})
-        for P in range(6):
-            recs.append({"t": "vocabend", "P": P, "first_seed": 0, "n": n})
+        def records(job_list, ends):
+            json.dump(job_list, open(jf, "w"))
+            run([PFV, "libgen", jf, lf], timeout=3600)
+            lib = {}
+            for l in open(lf):
+                if l.strip():
+                    r = json.loads(l); lib[r["id"]] = r
+            out = []
+            for j in job_list:
+                c = j["cfg"]; P, s = c["P"], j["seed"]
+                out.append({"t": "vocab", "P": P, "ext": int(c["ext"]), "buf": int(c["buf"]), "seed": str(s),
+                            "bytes": list(bytes.fromhex(lib[j["id"]]["hex"])), "claims": claims[(P, s, c["ext"], c["buf"])]})
+            return out + ends
+        recs = records(jobs, [{"t": "vocabend", "P": P, "ext": 0, "buf": 0, "first_seed": 0, "n": n} for P in range(6)])
+        n_default = len(jobs)
+        # every opt-in scan is judged on its own (its own coverage sets): each process order must reach every opcode
+        for oscan in optscans:
+            own = {}
+            for sc in oscan:
+                P, ext, buf = sc["P"], bool(sc["ext"]), bool(sc["buf"])
+                for op, s in sc["first"]:
+                    own.setdefault((P, int(s), ext, buf), []).append(op)
+            ojobs = [{"id": i + 1, "cfg": corpus.cfg(P, ext=ext, buf=buf), "mode": "seed", "seed": s} for i, (P, s, ext, buf) in enumerate(sorted(own))]
+            for (P, s, ext, buf), ops_ in own.items(): claims[(P, s, ext, buf)] = ops_
+            ends = [{"t": "vocabend", "P": sc["P"], "ext": sc["ext"], "buf": sc["buf"], "first_seed": 0, "n": n_opt} for sc in oscan]
+            recs.append({"t": "vocabreset"})
+            recs += records(ojobs, ends)
         hf = os.path.join(d, "vocab_hist.ndjson")
         open(hf, "w").write("\n".join(json.dumps(r) for r in recs) + "\n")
         findings, states = validate_history("vocab", hf)
@@ -279,7 +320,8 @@ def vocab_stage(tier_, key):
             f = {int(k): int(s) for k, s in sc["first"]}
             k = max(f, key=f.get); rarest["P%d" % sc["P"]] = {"opcode_or_frame_key": k, "first_seed": f[k], "distinct_witnessed": len(f)}
         small = [dict(r, bytes="(%d bytes)" % len(r["bytes"])) if r["t"] == "vocab" else r for r in recs]
-        return {"findings": split_findings(findings, small), "coverage": {"seeds_per_protocol": n, "witness_generations_validated": len(jobs),
+        return {"findings": split_findings(findings, small), "coverage": {"seeds_per_protocol": n, "seeds_per_opt_in_setting": n_opt,
+                "opt_in_scan_orders": 2, "witness_generations_validated": sum(1 for r in recs if r["t"] == "vocab"),
                 "rarest": rarest, "tlc_states": states}, "samples": small[:2]}
     return cached(key, "vocab_%s_%d" % (tier_, seed()), compute)
 
@@ -300,6 +342,11 @@ def leak_stage(tier_, key):
             J.seed_job(corpus.cfg(P), warm=200 if q else 3000)
             J.bytes_job(corpus.cfg(P), blen=2000, warm=200 if q else 3000)
             J.seed_job(corpus.cfg(P, 2000, 3000), warm=2)
+            # short-lived worker threads: construct, generate, drop, join - the thread's own allocations
+            # (thread-locals, per-thread tables) must be gone afterwards
+            for _ in range(6 if q else 60):
+                J.seed_job(corpus.cfg(P), thread=True)
+            J.bytes_job(corpus.cfg(P, ext=True, buf=True), blen=2000, thread=True)
         jf = os.path.join(d, "leak_jobs.json"); json.dump(J.jobs, open(jf, "w"))
         of = os.path.join(d, "leak.ndjson")
         run([PFV, "leak", jf, of], timeout=7200)
@@ -518,6 +565,10 @@ def front_stage(tier_, key):
         for i in range(10 if q else 40):
             cases.append({"id": len(cases) + 1, "kind": "cli", "mode": "action", "opts": rand_opts(i * 5 + 2), "n": rng.choice([0, 2])})
         cases.append({"id": len(cases) + 1, "kind": "cli", "mode": "batch-fail", "opts": rand_opts(1), "n": 3, "threads": 2})
+        # one of the files can be opened but not written (<dir>/1.pkl -> /dev/full): "exits 0 only if all were written"
+        if os.path.exists("/dev/full"):
+            for k in range(2):
+                cases.append({"id": len(cases) + 1, "kind": "cli", "mode": "batch-writefail", "opts": dict(rand_opts(7 + k), min=5, max=40), "n": 3, "threads": 1 + k})
         # library runs for the configuration the driver believes the options denote
         jobs = [harness_job(c["id"], lib_cfg_of(c["opts"])) for c in cases]
         # python cases
@@ -566,12 +617,14 @@ def front_stage(tier_, key):
                 p = run([exe] + cli_args(o, [fp]), check=False, timeout=600)
                 got = open(fp, "rb").read().hex() if os.path.exists(fp) else ""
                 recs.append(dict(base, exit=min(p.returncode, 1), want_exit=0, files=[], want_files=[], got=got, lib=lib[c["id"]]))
-            elif c["mode"] in ("batch", "batch-fail"):
+            elif c["mode"] in ("batch", "batch-fail", "batch-writefail"):
                 od = os.path.join(d, "front_batch")
                 shutil.rmtree(od, ignore_errors=True)
                 if os.path.exists(od): os.remove(od)
                 if c["mode"] == "batch-fail":
                     open(od, "w").write("not a directory")
+                elif c["mode"] == "batch-writefail":
+                    os.makedirs(od); os.symlink("/dev/full", os.path.join(od, "1.pkl"))
                 elif c["id"] % 2 == 1:
                     # the directory already holds longer files 0.pkl..N-1.pkl from an earlier, different run
                     os.makedirs(od)
@@ -581,6 +634,9 @@ def front_stage(tier_, key):
                 p = run([exe] + cli_args(o, ["--dir", od, "--samples", str(c["n"])]), env={"RAYON_NUM_THREADS": str(c["threads"])}, check=False, timeout=1200)
                 if c["mode"] == "batch-fail":
                     os.remove(od)
+                    recs.append(dict(base, exit=min(abs(p.returncode), 1), want_exit=1, files=[], want_files=[], got="", lib=""))
+                elif c["mode"] == "batch-writefail":
+                    shutil.rmtree(od, ignore_errors=True)
                     recs.append(dict(base, exit=min(abs(p.returncode), 1), want_exit=1, files=[], want_files=[], got="", lib=""))
                 else:
                     files = sorted(os.listdir(od), key=lambda f: (len(f), f)) if os.path.isdir(od) else []
